@@ -72,8 +72,14 @@ def model_lines(case, built):
 
 
 def model_parse(case, built, out):
-    wf = (" wf=1" in out[0]) if out and out[0].startswith("ok") else None
-    return {"answers": core.parse_stream_answer(out[1]) if len(out) > 1 else None, "wf": wf, "open": out[0] if out else None}
+    # wf = inside the hypotheses of the read theorems: every sparse extent satisfies WF (sparse_read_correct: wfU=1) or
+    # WFc (compressed_read_correct: wfC=1, every allocated grain's record lies in the file and inflates to one grain)
+    ok = bool(out) and out[0].startswith("ok")
+    wf = (" thm=1" in out[0]) if ok else None
+    if ok and "wfC=1" in out[0] and "in-WFc" not in built.info.get("branches", []):
+        built.info["branches"] = built.info.get("branches", []) + ["in-WFc"]
+    return {"answers": core.parse_stream_answer(out[1]) if len(out) > 1 else None, "wf": wf, "wfb": (" wf=1" in out[0]) if ok else None,
+            "open": out[0] if out else None}
 
 
 def nontrivial(case, built, model):
